@@ -14,6 +14,7 @@ import (
 
 	"github.com/vektah/gqlparser/v2"
 	"github.com/vektah/gqlparser/v2/ast"
+	"github.com/vektah/gqlparser/v2/gqlerror"
 
 	"github.com/99designs/gqlgen/graphql"
 	"github.com/99designs/gqlgen/graphql/handler"
@@ -188,7 +189,18 @@ func runHistory(capacity int, reqs []req, probeKeys []string) ([]obs, []probeKV)
 	srv := handler.New(es)
 	srv.AddTransport(transport.POST{})
 	srv.SetQueryCache(lru.New[*ast.QueryDocument](64)) // as handler.NewDefaultServer does
-	srv.Use(extension.AutomaticPersistedQuery{Cache: cache})
+	// other extensions with an operation-parameter hook stand beside it on a third of the servers each way round: what
+	// the persisted-query extension decides must not depend on who else looks at the parameters
+	switch (len(reqs) + capacity) % 3 {
+	case 1:
+		srv.Use(extension.AutomaticPersistedQuery{Cache: cache})
+		srv.Use(bystander{})
+	case 2:
+		srv.Use(bystander{})
+		srv.Use(extension.AutomaticPersistedQuery{Cache: cache})
+	default:
+		srv.Use(extension.AutomaticPersistedQuery{Cache: cache})
+	}
 	var out []obs
 	for _, r := range reqs {
 		executed = nil
@@ -413,4 +425,13 @@ func Run(c *gen.Ctx) error {
 	meta.Distribution = map[string]any{"exhaustive_cases": exhaustive, "random_cases": nrand, "request_forms": kinds, "observed_outcomes": outcomes, "history_lengths": lens}
 	concurrentClients(c, gen.NewRand(c.Seed+23), meta)
 	return meta.Write(c.OutDir)
+}
+
+// bystander: an extension that looks at the operation parameters of every request and refuses none.
+type bystander struct{}
+
+func (bystander) ExtensionName() string                          { return "Bystander" }
+func (bystander) Validate(schema graphql.ExecutableSchema) error { return nil }
+func (bystander) MutateOperationParameters(ctx context.Context, p *graphql.RawParams) *gqlerror.Error {
+	return nil
 }
